@@ -1,2 +1,20 @@
-(* C15 - Cache keys identify argument values: equal key iff equal value.  (stub: statements are added with the proofs) *)
-From Verif Require Import Base.Prelude Model.PyVal Model.ToHashable Model.ToHashableSpec.
+(* C15 - Cache keys identify argument values: equal key iff equal value.
+   Only statements here; every proof is `exact <lemma>` into Proofs/.
+   Model: Model/PyVal.v (values, ==, <, hash, sorted), Model/ToHashable.v (to_hashable), guards and `supported`:
+   Model/ToHashableSpec.v. *)
+From Verif Require Import Base.Prelude Model.PyVal Model.ToHashable Model.ToHashableSpec Proofs.ToHashableFacts.
+
+(* ---- key_hashable: to_hashable returns a hashable key.
+   Full statement:  forall fp v k, supported v = true -> to_hashable fp v = Ok k -> py_hashable k = true.
+   It is FALSE for masked arrays with masked elements (known finding masked-array-key-unhashable): *)
+Theorem C15_key_hashable_refuted :
+  exists v k, supported v = true /\ to_hashable true v = Ok k /\ py_hashable k = false.
+Proof. exact key_hashable_refuted. Qed.
+Print Assumptions C15_key_hashable_refuted.
+
+(* proved for every well-formed value without masked elements (pandas values: not covered by the proofs) *)
+Theorem C15_key_hashable_partial : forall fp v k,
+  wf v = true -> unmasked v = true -> no_pandas v = true ->
+  to_hashable fp v = Ok k -> py_hashable k = true.
+Proof. exact key_hashable. Qed.
+Print Assumptions C15_key_hashable_partial.
